@@ -1,6 +1,7 @@
 """C07: mbuff objects are faithful byte-sequence values under any history (src/mbuff.c)."""
 import itertools
 import vlib
+import bigsize
 
 INC = 4096          # only used to aim sizes at the chunk boundary; the model takes the real value from Gen/Constants.v
 SIZES_BIG = [4095, 4096, 4097, 3 * 4096 + 5]
@@ -319,7 +320,9 @@ class C07(vlib.PropertyCheck):
                    'cmp_with_ptr / ncmp_with_ptr: the answer is specified for counts up to the buffer length (any count when size = len); between len and size the code compares spare cells (the unedited suite relies on that), above size it stops at the allocation',
                    'set_len only truncates, set_size is not used to misstate the allocation',
                    'self and other are distinct objects (aliasing and ownership belong to C05/C06)',
-                   'object sizes below 2^31; "C" locale; malloc does not fail',
+                   'object sizes below 2^31 for the model runs ("C" locale; malloc does not fail); lengths of 2^31-1 up to 3*2^31+5 are tied on the '
+                   'implementation side only, for the comparison family and index / rindex / find, against the ideal answers computed '
+                   'from (length, offset of the one differing byte) - the extracted model is too slow there',
                    'kernel read()/lseek() and stdio fread()/fseek()/ftell() behave as modelled (schedule semantics in MbuffModel.v)']
 
     MANIFEST = dict(
@@ -338,7 +341,12 @@ class C07(vlib.PropertyCheck):
               'C07_mbuff_cmp_with_ptr_exact_size (counts above the length on an object without spare cells).  Nothing is _partial.  Outside the '
               'theorems by stated contract: set_size (raw capacity write), cmp_with_ptr/ncmp_with_ptr with a count between len and size (the code '
               'compares spare cells there; the unedited suite relies on it), set_len used to extend, aliasing self == other, spif_mbuff_show, allocation '
-              'failure, sizes >= 2^31.  Decided by the correspondence check only: that src/mbuff.c is the modelled function (level A: return '
+              'failure; sizes >= 2^31 are inside the theorems but the extracted model is not run there - cmp, ncmp, cmp_with_ptr, ncmp_with_ptr, index, '
+              'rindex, find and find_from_ptr are run on hand-built objects of 2^31-1 .. 3*2^31+5 bytes over sparse zero mappings and compared with the '
+              'ideal sequence\'s answers (harness/bigmap.h), and so are subbuff / subbuff_to_ptr (short pieces at positions beyond 2^31) and reverse '
+              '(spif_mbuff_reverse indexed with int and left such buffers unreversed: repaired in src/mbuff.c), and short histories of new_from_ptr, '
+              'append*, prepend*, splice*, subbuff, reverse, dup, clear and trim on real heap objects of that size, every byte checked after every '
+              'step against an ideal kept as (length, fill, marked positions); sprintf and the stream constructors are not run at those sizes.  Decided by the correspondence check only: that src/mbuff.c is the modelled function (level A: return '
               'values, len, bytes, size >= len, allocation >= size via __sanitizer_get_allocated_size, sanitizer silence; level B: exact size), '
               'vsnprintf (outputs of every length 2^k-1, 2^k, 2^k+1 up to 16385, first and later use), the kernel and stdio behaviour behind the '
               'read schedules (real pipes and regular files under build/work/c07), and the '
@@ -596,7 +604,77 @@ class C07(vlib.PropertyCheck):
             return True
         return len(steps) >= 2 and any(s.startswith('T') or s.startswith('O:') or s.startswith('P:') or s[0] in 'ic' for s in steps[1:])
 
+    # ---- lengths of 2^31-1 and more (checks/bigsize.py; the "big" case of harness/c07.c; harness/bigmap.h) ----
+    def big_cases(self, tier):
+        P31, P32 = 1 << 31, 1 << 32
+        small = [0, 1, 2]
+        if tier == 'quick':
+            big = [P31 - 1, P31, P31 + 2, P32 + 1]
+            pairs = [(1, P31 + 2), (1, P32 + 1), (2, P31), (0, P31 - 1), (P31 - 1, P31), (P31, P31 + 2), (P31 + 2, P32 + 1), (P31 - 1, P32 + 1)]
+            scan = [P31 + 2]
+        else:
+            big = [P31 - 1, P31, P31 + 2, P32 - 1, P32, P32 + 1, 3 * P31 + 5]
+            pairs = [(a, b) for a in small for b in big] + [(a, b) for i, a in enumerate(big) for b in big[i:]]
+            scan = [P31 - 1, P31, P31 + 2, P32 + 1]
+        cases = ['big cmp z%d z%d' % ab for ab in pairs]
+        # a difference that lies beyond offset 2^31 / 2^32 (a count or an offset cut to 32 bits would not see it)
+        for n in big:
+            for off in (P31 - 1, P31 + 1, P32 - 1, P32):
+                if off < n and (tier != 'quick' or off in (P31 + 1, P32)):
+                    cases.append('big cmp z%d p%d@%d' % (n, n, off))
+                    cases.append('big cmp p%d@%d z%d' % (n, off, off))          # the poke lies just past the shorter one
+                    if tier != 'quick':
+                        cases.append('big cmp p%d@%d p%d@%d' % (n, off, n, n - 1))
+        # index / rindex / find: absent (the answer is the length), present only beyond 2^31
+        for n in scan:
+            cases += ['big idx z%d 7' % n, 'big find z%d 0001' % n]
+            for off in ([n - 1] if tier == 'quick' else [n - 1, P31, 0]):
+                if 0 <= off < n:
+                    cases += ['big idx p%d@%d 1' % (n, off), 'big find p%d@%d 0001' % (n, off)]
+            if tier != 'quick':
+                cases += ['big idx z%d 0' % n, 'big find p%d@%d 000100' % (n, n - 1), 'big find z%d 00000000' % n]
+        # subbuff / subbuff_to_ptr: positions beyond 2^31 and 2^32, negative positions counted from such a length, counts that
+        # are completed from it; the piece is a few bytes long and holds the one 0x01 byte (or just misses it)
+        for (n, off) in [(P31 + 2, P31 + 1), (P32 + 1, P32)] + ([] if tier == 'quick' else [(P31, P31 - 1), (3 * P31 + 5, P32 + 3)]):
+            for (idx, cnt) in [(off - 1, 3), (off, 1), (off + 1, 1), (n - 1, 1), (n, 1), (n + 1, 0), (-1, 1), (-2, 0), (-3, -1), (-n, 4), (-n - 1, 4),
+                               (n - 2, 0), (n - 4, -2), (n - 1, -2), (off, 1 - (n - off)), (off - 2, 4 - (n - off + 2)), (-(n - off) - 1, 3),
+                               (P31 - 2, 5), (-(n - P31 + 2) - 1, 5)]:
+                cases.append('big sub p%d@%d %d:%d' % (n, off, idx, cnt))
+        # reverse: the one operation of the family here that writes every byte (the mapping is committed for the case:
+        # 2 GiB resp. 4 GiB for a few seconds)
+        revs = [(P31 + 2, 5)] if tier == 'quick' else [(P31 - 1, 0), (P31, 0), (P31 + 1, 0), (P31 + 2, 5), (P32 + 1, P31 + 1)]
+        cases = ['big rev p%d@%d -' % r for r in revs] + cases
+        # histories on REAL objects of that size (new_from_ptr copies the sparse buffer into the heap: the case commits
+        # one to three times its length for a few seconds; checks/bigsize.py runs at most two such cases at a time)
+        def hist(n, off, prog):
+            return 'big hist p%d@%d %s' % (n, off, prog)
+        n, off = P31 + 2, P31 + 1
+        hists = [hist(n, off, 'spl:%d:1:4142' % off)]            # quick: this one and the reverse above fill the two heavy slots
+        if tier != 'quick':
+            hists.append(hist(n, off, 'pre:71,app:7879,sub:-3:0'))
+            for (n, off) in [(P31 - 1, P31 - 2), (P31, 0), (P31 + 2, P31 + 1)]:
+                hists += [hist(n, off, 'apo:7879,ppo:71,sub:%d:3' % (off + 1 - 1)), hist(n, off, 'splp:%d:2:41' % max(off - 1, 0)),
+                          hist(n, off, 'spl:-3:1:414243,sub:-5:0'), hist(n, off, 'dup'), hist(n, off, 'rev,sub:%d:2' % max(n - 2 - off, 0)),
+                          hist(n, off, 'clr:32,trim'), hist(n, off, 'pre:20,app:0a,trim')]
+            hists += [hist(P32 + 1, P32, 'app:7879,sub:-3:0'), hist(P32 + 1, P31 + 1, 'rev,sub:%d:3' % (P32 + 1 - 1 - (P31 + 1) - 1))]
+        return hists + cases
+
+    @staticmethod
+    def big_heavy(case):
+        return case.startswith('big hist ') or case.startswith('big rev ')
+
     def extra_steps(self, ctx):
+        big = bigsize.big_pass(self, ctx, self.big_cases(ctx['tier']), lambda c: 'BIG:ok', heavy=self.big_heavy,
+                               what=('mbuff objects of length 2^31-1 .. 3*2^31+5 whose buff points into a sparse zero mapping: cmp / ncmp / '
+                                     'cmp_with_ptr / ncmp_with_ptr on pairs (equal bytes: the sign of the length difference; one differing '
+                                     'byte beyond offset 2^31 or 2^32), index / rindex / find of absent bytes (answer = length) and of '
+                                     'bytes present only beyond 2^31, subbuff / subbuff_to_ptr at positions beyond 2^31 and 2^32 and at negative '
+                                     'positions, reverse (position of the one marked byte afterwards), against the ideal sequence\'s answers '
+                                     'computed from the lengths; histories on real heap objects of 2^31-1 .. 2^32+1 bytes made by new_from_ptr '
+                                     '(append, prepend, splice, subbuff, reverse, dup, clear, trim - every byte checked after every step)'))
+        return big + self.extra_steps_small(ctx)
+
+    def extra_steps_small(self, ctx):
         # operation / size histograms of this run (the shared histogram only sees the constructor token)
         path = vlib.os.path.join(vlib.BUILD, 'work', 'c07', 'cases-main-%d.txt' % vlib.os.getpid())
         ops, sizes, lens = {}, {}, {}
